@@ -49,9 +49,10 @@ CLAUSES = {
     6: "D17_arg_keepdims_negative_axis",
     7: "arg_unpruned_tie_with_fill",
     8: "unique_values_unpruned",
-    9: "D10_unique_counts_fill_pos_gt1",
     10: "unique_counts_unpruned",
     11: "nonzero_unpruned",
+    12: "D17_arg_1d_keepdims",
+    13: "sort_1d_axis_unchecked",
 }
 
 
